@@ -233,8 +233,14 @@ func encodeCmd(args []string) error {
 					if r > a {
 						r = a
 					}
-					o := sp.f(color.RGBA64{R: uint16(r), G: uint16(a - r), B: uint16(r / 2), A: uint16(a)})
-					for _, pr := range [][2]int{{r, int(o.R)}, {a - r, int(o.G)}, {r / 2, int(o.B)}} {
+					g := a - r
+					if i%6 == 5 && a < 65535 {
+						// a component ABOVE alpha (super-luminous premultiplied pixels, as resampling filters and
+						// additive blending produce): un-premultiplying and premultiplying still cancel
+						g = a + 1 + rngE.Intn(65535-a)
+					}
+					o := sp.f(color.RGBA64{R: uint16(r), G: uint16(g), B: uint16(r / 2), A: uint16(a)})
+					for _, pr := range [][2]int{{r, int(o.R)}, {g, int(o.G)}, {r / 2, int(o.B)}} {
 						x := float32(pr[0]) / 65535
 						ev := pointEvent(encFn{name: sp.name + ".EncodeColor(RGBA64, alpha " + fmt.Sprint(a) + ")", fn: "to16", curve: sp.curve, n: 65535, steps: 65535}, x, pr[1], -1)
 						if ev["xclass"] == "in" {
